@@ -132,8 +132,9 @@ func TestC04(t *testing.T) {
 				var got hres
 				select {
 				case got = <-done:
-				case <-time.After(20 * time.Second):
-					fail(i, c, "command on a key with lost backend entries did not return within 20s")
+				case <-time.After(hangBound()):
+					noteHang()
+					fail(i, c, "command on a key with lost backend entries did not return within the bound")
 				}
 				if c.Kind == wire.Set && got.Class == refmodel.OK {
 					model.Apply(c, now)
@@ -151,8 +152,9 @@ func TestC04(t *testing.T) {
 				var got hres
 				select {
 				case got = <-done:
-				case <-time.After(10 * time.Second):
-					fail(i, c, "command did not return within 10s")
+				case <-time.After(hangBound()):
+					noteHang()
+					fail(i, c, "command did not return within the bound")
 				}
 				if c.Kind == wire.Get {
 					// positions of damaged keys are not judged
